@@ -44,6 +44,16 @@ pub fn gen(rng: &mut Rng, tier: Tier, idx: u64) -> Case {
             .iter()
             .filter(|s| matches!(s.kind, SK::StrBody | SK::TopicName | SK::Filter | SK::ResponseTopic | SK::Pid | SK::PropVar | SK::Payload | SK::BinBody | SK::PropByte) && s.len > 0)
             .collect();
+        // large payloads: a lead byte just before / a continuation byte just after a 64 KiB boundary
+        if let Some(pl) = e.spans.iter().find(|s| s.kind == SK::Payload && s.len > 65_536) {
+            if rng.chance(1, 2) {
+                let k = 65_536 * rng.urange(1, pl.len / 65_536);
+                if k < pl.len {
+                    let (pos, val) = if rng.bool() { (pl.off + k - 1, 0xC3) } else { (pl.off + k, 0xA9) };
+                    c.mutations.push(Mutation::Set { pos, val });
+                }
+            }
+        }
         if !targets.is_empty() {
             let n = rng.urange(1, 2);
             for _ in 0..n {
@@ -66,6 +76,9 @@ fn run_g<C: Codec>(c: &Case, trace: bool) -> RunOut {
     let f = if c.fam.is_v5() { "v5" } else { "v3" };
     let stream = Rc::new(hostile_stream(c));
     let ty = type_of_stream(&stream);
+    if stream.len() > 65_536 && c.mutations.iter().any(|m| matches!(m, Mutation::Set { val: 0xC3 | 0xA9, pos } if *pos >= 65_000)) {
+        out.probe("payload-64k-boundary-corrupted");
+    }
     let b = fe_block::<C>(&stream);
     out.evals += 1;
     let ar = run_a::<C>(&stream, &c.read_script, c.read_tail, &[], trace, &mut out);
